@@ -3,8 +3,9 @@
 (* Inductive invariant of Walleye.tla for Apalache (symbolic, no bound on  *)
 (* the number of commands, moves, slices or sends):                        *)
 (*     IndInit => IndInv   and   IndInv /\ [Next]_vars => IndInv'          *)
-(* IndInv implies the safety properties AnswerFitsPosition, ChannelFresh   *)
-(* and NoEarlyAnswer of the repaired configuration (all Bug* = FALSE).     *)
+(* IndInv implies the safety properties AnswerFitsPosition, ChannelFresh,  *)
+(* NullMoveOnlyWhenOver and NoEarlyAnswer of the repaired configuration    *)
+(* (all Bug* = FALSE).                                                     *)
 (*   apalache-mc check --cinit=CInit --init=IndInit --inv=IndInv --length=1 WalleyeInd.tla *)
 (*   apalache-mc check --cinit=CInit --init=Init --inv=IndInv --length=0 WalleyeInd.tla    *)
 (***************************************************************************)
@@ -12,7 +13,7 @@ EXTENDS Walleye, Apalache
 
 CInit == /\ MaxCmds \in Nat /\ MaxMoves \in Nat /\ MaxSlice \in Nat /\ MaxSends \in Nat
          /\ BugNoAnswerWhenNoMoves = FALSE /\ BugEofSpins = FALSE /\ BugSharedChannel = FALSE
-         /\ BugFallbackBeforeLoop = FALSE /\ BugStaleGameOver = FALSE
+         /\ BugFallbackBeforeLoop = FALSE /\ BugStaleGameOver = FALSE /\ BugGameOverLatch = FALSE /\ BugGivesUpOnGarbage = FALSE
 
 IndInv ==
   /\ io \in {"read", "poll", "dead"}
@@ -28,23 +29,25 @@ IndInv ==
   \* everything in the channel and the board held by the polling loop belong to that search
   /\ (io = "poll" => \A i \in DOMAIN chan : chan[i].pos = root.id /\ chan[i].mv >= 1 /\ chan[i].mv <= root.n)
   /\ (io = "poll" /\ best # NoBest => best.pos = root.id /\ best.mv >= 1 /\ best.mv <= root.n)
+  \* every answer printed so far names a root move, or is the null move of a finished game
+  /\ (\A i \in DOMAIN out : out[i].t = "bestmove" => out[i].b >= 0)
   \* ids are fresh
   /\ board.id < nextId /\ root.id < nextId /\ board.id >= 0 /\ root.id >= 0
 
 \* any state satisfying the invariant (bounded generators for the sequences)
 IndInit ==
-  /\ nread = Gen(1) /\ io = Gen(1) /\ board = Gen(1) /\ table = Gen(3) /\ flagOver = Gen(1) /\ left = Gen(1)
+  /\ nread = Gen(1) /\ io = Gen(1) /\ board = Gen(1) /\ table = Gen(3) /\ hid = Gen(1) /\ left = Gen(1)
   /\ chan = Gen(4) /\ best = Gen(1) /\ srch = Gen(1) /\ root = Gen(1) /\ sent = Gen(1) /\ started = Gen(1)
   /\ pending = Gen(1) /\ out = Gen(3) /\ nextId = Gen(1) /\ ngo = Gen(1) /\ owed = Gen(2) /\ stage = Gen(1) /\ cur = Gen(1)
   /\ IndInv
 
 \* what the invariant is for
-Safety == AnswerFitsPosition /\ ChannelFresh
+Safety == AnswerFitsPosition /\ ChannelFresh /\ NullMoveOnlyWhenOver
 
 \* sanity (expected to be VIOLATED): IndInit is satisfiable with a go in service
 NotServing == io # "poll"
 \* the same obligation for the one-channel-per-session variant (expected to be VIOLATED)
 CInitShared == /\ MaxCmds \in Nat /\ MaxMoves \in Nat /\ MaxSlice \in Nat /\ MaxSends \in Nat
                /\ BugNoAnswerWhenNoMoves = FALSE /\ BugEofSpins = FALSE /\ BugSharedChannel = TRUE
-               /\ BugFallbackBeforeLoop = FALSE /\ BugStaleGameOver = FALSE
+               /\ BugFallbackBeforeLoop = FALSE /\ BugStaleGameOver = FALSE /\ BugGameOverLatch = FALSE /\ BugGivesUpOnGarbage = FALSE
 =============================================================================
